@@ -64,6 +64,12 @@ type fileProducer struct {
 }
 
 func (p fileProducer) GetReader() (io.Reader, error) {
+	if st, err := p.f.Stat(); err == nil && st.Mode().IsRegular() {
+		// Every call gets its own positioned reader. An HTTP transport may still
+		// be draining the reader of an abandoned attempt when the next one
+		// starts, so attempts must not share the file offset.
+		return io.NewSectionReader(p.f, 0, st.Size()), nil
+	}
 	if _, err := p.f.Seek(0, io.SeekStart); err != nil {
 		return nil, fmt.Errorf("seeking input file: %w", err)
 	}
